@@ -1,6 +1,7 @@
 package verifchecks
 
 import (
+	"fmt"
 	"testing"
 
 	"pgregory.net/rapid"
@@ -74,4 +75,77 @@ func replayGraph(t *testing.T, ops []Op, oracle func(*gm)) {
 		}
 		oracle(g)
 	}
+}
+
+// largeCase builds a history whose size is outside the small pool: n distinct
+// ids (a few hundred, so that internal ids, change positions and key bytes
+// cross 0xFF / 0xFFFF boundaries and pages end on every kind of key) written to
+// dataset a in batches of drawn sizes, interleaved with writes of other ids to
+// b (so that a's internal ids are not contiguous), followed by overwrites and
+// deletes of a drawn subset. Returns the page limit sequence to read with.
+func largeCase(t *rapid.T, g *gm) []int {
+	p := g.h.P[0]
+	n := rapid.IntRange(260, 900).Draw(t, "n")
+	if rapid.IntRange(0, 3).Draw(t, "small") == 0 {
+		n = rapid.IntRange(1, 40).Draw(t, "nsmall")
+	}
+	mk := func(i int, v string, del bool) *kit.Ent {
+		e := ent(fmt.Sprintf("%s:x%d", p, i), map[string]any{p + ":p0": v}, nil, del)
+		if i%7 == 3 {
+			e.Refs[p+":r0"] = fmt.Sprintf("%s:x%d", p, (i+1)%n)
+		}
+		return e
+	}
+	g.t = t
+	for i := 0; i < n; {
+		sz := rapid.SampledFrom([]int{1, 3, 10, 11, 100, 255, 256, 400}).Draw(t, "batch")
+		var es []*kit.Ent
+		for j := 0; j < sz && i < n; j++ {
+			es = append(es, mk(i, "v0", false))
+			i++
+		}
+		g.applyBatch(Op{K: "batch", DS: "a", Via: rapid.SampledFrom([]string{"store", "parser"}).Draw(t, "via"), Ents: es})
+		if rapid.IntRange(0, 2).Draw(t, "other") == 0 {
+			var os []*kit.Ent
+			for j := 0; j < rapid.IntRange(1, 30).Draw(t, "nother"); j++ {
+				os = append(os, ent(fmt.Sprintf("%s:y%d-%d", p, i, j), map[string]any{p + ":p0": "o"}, nil, false))
+			}
+			g.applyBatch(Op{K: "batch", DS: "b", Via: "store", Ents: os})
+		}
+	}
+	nm := rapid.IntRange(0, 40).Draw(t, "rewrites")
+	var es []*kit.Ent
+	for j := 0; j < nm; j++ {
+		i := rapid.IntRange(0, n-1).Draw(t, "which")
+		es = append(es, mk(i, "v1", rapid.IntRange(0, 3).Draw(t, "del") == 0))
+	}
+	if len(es) > 0 {
+		g.applyBatch(Op{K: "batch", DS: "a", Via: "store", Ents: es})
+	}
+	g.cls[fmt.Sprintf("n-%d00s", n/100)] = true
+	nl := rapid.IntRange(1, 3).Draw(t, "nlim")
+	lim := make([]int, nl)
+	for i := range lim {
+		lim[i] = rapid.SampledFrom([]int{1, 2, 7, 64, 100, 255, 256, 257}).Draw(t, "lim")
+	}
+	return lim
+}
+
+// C01 at a size the small pool cannot reach: paged listing == model, every id
+// once, for page limits that put page ends on arbitrary keys.
+func TestVerif_C01_large(t *testing.T) {
+	defer kit.S().Flush()
+	defer kit.CleanupScratch()
+	rapid.Check(t, func(t *rapid.T) {
+		g := newGM(t, []string{"a", "b"}, kit.GenCfg{})
+		defer g.close()
+		lim := largeCase(t, g)
+		kit.Journal(map[string]any{"large": true, "limits": lim, "ops": len(g.hist)})
+		defer kit.JournalDone()
+		g.checkLatest("a", nil, false)
+		g.checkLatest("a", lim, false)
+		g.checkLatest("a", lim, true)
+		g.checkLatest("b", lim, false)
+		kit.S().Case(map[string]any{"large": len(g.m.DS["a"].Latest), "limits": lim, "feed": len(g.m.DS["a"].Feed)}, len(g.m.DS["a"].Latest) > 256, g.classes()...)
+	})
 }
